@@ -333,7 +333,9 @@ def c15_admit_gen(rng, tier):
         kinds = rng.choice([["uq"], ["uq", "tq"], ["uq", "tq", "qq"], ["qq"], ["qq", "uq"], ["tq"]])
         clients = rng.sample(CLIENTS, rng.choice([1, 2, 3]))
         for _ in range(rng.choice([3, 5, 8, 10])):
-            if http and rng.random() < 0.4:
+            if http and rng.random() < 0.12:
+                steps.append("hx:%d" % rng.randrange(10))
+            elif http and rng.random() < 0.4:
                 steps.append("hq:" + rng.choice(HDR_ADDRS))
             else:
                 steps.append("%s:%s" % (rng.choice(kinds), rng.choice(clients)))
@@ -353,6 +355,8 @@ def c15_admit_gen(rng, tier):
         rng.shuffle(others)
         steps = ["hc:" + HTTP_CARRIER, "hq:" + noisy, "hq:" + noisy]
         steps += ["hq:" + a for a in others[:rng.choice([3, 5, 6])]]
+        if rng.random() < 0.5:
+            steps.insert(rng.randrange(2, len(steps) + 1), "hx:%d" % rng.randrange(10))
         steps.append("hq:" + noisy)
         out.append("m%d rate=1 burst=%d v4=%d v6=%d global=0 steps=%s" % (i, burst, v4, v6, ",".join(steps)))
     return out
@@ -380,9 +384,14 @@ def c15_admit_oracle(line, res):
 
     for st, o in zip(steps, outs):
         kind, a = st.split(":")
-        k = bucket(a)
         if o.endswith("+fwd"):
-            return "step %s: outcome %s but the query reached the upstream (a refused query must not be forwarded)" % (st, o)
+            return "step %s: outcome %s but the query reached the upstream (a query the limiter did not admit must not be forwarded)" % (st, o)
+        if kind == "hx":
+            # the client address header does not parse: no subnet can be charged, so the request must not be processed
+            if o != "400":
+                return "step %s: a request whose client address header does not parse was answered %s; it must get 400 and must not be processed" % (st, o)
+            continue
+        k = bucket(a)
         if "-nofwd" in o:
             return None
         if kind == "hc":
@@ -856,7 +865,8 @@ def c15_admitglobal_oracle(line, res):
     for st, o in zip(steps, outs):
         if o.endswith("+fwd"):
             return "step %s: outcome %s but the query reached the upstream (a refused query must not be forwarded)" % (st, o)
-    a = sum(1 for st, o in zip(steps[:cut], outs[:cut]) if st == "uq:" + victim and o.startswith("ANS"))
+    # every try of the victim that was not REFUSED counts as charged (answered, or answer lost)
+    a = sum(1 for st, o in zip(steps[:cut], outs[:cut]) if st == "uq:" + victim and o != "REFUSED")
     k = 0
     for st, o in zip(steps[cut + 1:], outs[cut + 1:]):
         if st != "uq:" + victim:
